@@ -583,6 +583,41 @@ func (e *Engine) split(st *State, c *callCtx, s, sep *Term, n int) bool {
 	if !sep.K || sep.Str == "" {
 		unsup("strings.Split with symbolic or empty separator")
 	}
+	// structural split of a concatenation whose symbolic operands provably contain no separator
+	if s.parts != nil && n < 0 {
+		ok := true
+		var pieces [][]*Term
+		cur := []*Term{}
+		for _, p := range s.parts {
+			if p.K {
+				segs := strings.Split(p.Str, sep.Str)
+				for i, sg := range segs {
+					if i > 0 {
+						pieces = append(pieces, cur)
+						cur = []*Term{}
+					}
+					if sg != "" {
+						cur = append(cur, KStr(sg))
+					}
+				}
+				continue
+			}
+			if e.ask(StrContains(p, sep)) != "unsat" {
+				ok = false
+				break
+			}
+			cur = append(cur, p)
+		}
+		if ok && len(sep.Str) == 1 {
+			pieces = append(pieces, cur)
+			var ts []*Term
+			for _, pc := range pieces {
+				ts = append(ts, Concat(pc...))
+			}
+			mk(st, ts)
+			return true
+		}
+	}
 	K := e.cfg.Params["SPLIT"]
 	if K == 0 {
 		K = 4
